@@ -150,6 +150,19 @@ CHECKS = {
              "probability claims by monotonicity of log).",
         technique="CrossHair symbolic execution (z3) over symbolic adjacency matrices vs. closed-form oracle",
         ref='4 C15'),
+    'C20': dict(
+        text="Bounded symbolic model checking of the real rejection paths of wn.lmf: header check "
+             "(_read_header, is_lmf, load) over 234 combinations of declaration / DOCTYPE / line-ending "
+             "variations incl. non-UTF-8 bytes; the expat handler closures driven with symbolic element "
+             "names (all 23 names of all versions + an unknown one) - rejected iff a name does not exist in "
+             "the declared version or a single-valued child repeats; _validate with any one of 23 "
+             "identifying attributes removed; scan_lexicons on text produced by the real writer (both "
+             "quote styles, entities, tabs, a start tag across the 64 KiB mark) vs. a reference parse; "
+             "_add_lmf issuing no DML when load() rejects.",
+        note=NOTE_COMMON + "Files are fake file objects; XML well-formedness checking itself (expat) and "
+             "byte framing are outside.",
+        technique="CrossHair symbolic execution (z3) of the real LMF header / handler / validation / scan code",
+        ref='4 C20'),
     'C19': dict(
         text="Bounded symbolic model checking of the real _add_ili (upsert SQL on the model), _ili.load / "
              "is_ili (fake file) and add_lexical_resource in four interleavings (index->lexicon, "
